@@ -12,6 +12,7 @@ d = os.path.abspath(sys.argv[1])
 tier = "quick"
 also = []
 in_repo = False
+with_tests = False
 args = sys.argv[2:]
 while args:
     a = args.pop(0)
@@ -21,6 +22,8 @@ while args:
         also = args.pop(0).split(",")
     elif a == "--in-repo":
         in_repo = True
+    elif a == "--tests":
+        with_tests = True
 meta_p = os.path.join(d, "meta.json")
 meta = json.load(open(meta_p)) if os.path.exists(meta_p) else {}
 pid = meta.get("property") or os.path.basename(os.path.dirname(d))
@@ -44,8 +47,30 @@ res = {"ran_at": time.strftime("%Y-%m-%d %H:%M:%S"), "tier": tier, "tree": "scra
 demo = os.path.join(d, "demo.py")
 if os.path.exists(demo):
     res["demo_unchanged_rc"] = run(["/venv/bin/python", demo], env=env, cwd=TREE)[0]
+
+
+def failing_tests(tree):
+    """run the pinned test command in the tree (thread-limited) and return the sorted list of non-passing tests"""
+    import xml.etree.ElementTree as ET
+    xmlp = os.path.join(V, "build", "trial_junit_%d.xml" % os.getpid())
+    e2 = dict(env, OMP_NUM_THREADS="1", OPENBLAS_NUM_THREADS="1", MKL_NUM_THREADS="1")
+    run(["/venv/bin/python", "-m", "pytest", "-q", "-p", "no:cacheprovider", "--timeout=900",
+         "--continue-on-collection-errors", "--junitxml=" + xmlp], env=e2, cwd=tree)
+    bad = []
+    for tc in ET.parse(xmlp).iter("testcase"):
+        if any(c.tag in ("failure", "error") for c in tc):
+            bad.append(tc.get("classname") + "::" + tc.get("name"))
+    os.unlink(xmlp)
+    return sorted(bad)
+
+
+if with_tests:
+    res["tests_failing_unchanged"] = failing_tests(TREE)
 rc, out = run(["git", "-C", TREE, "apply", patch])
 assert rc == 0, out
+if with_tests:
+    res["tests_failing_patched"] = failing_tests(TREE)
+    res["tests_same_outcome"] = res["tests_failing_patched"] == res["tests_failing_unchanged"]
 try:
     if os.path.exists(demo):
         res["demo_patched_rc"] = run(["/venv/bin/python", demo], env=env, cwd=TREE)[0]
@@ -75,4 +100,4 @@ finally:
 meta.setdefault("trials", []).append(res)
 json.dump(meta, open(meta_p, "w"), indent=1)
 print(json.dumps({k: {"caught": v["caught"], "input": v["with_failing_input"], "s": v["wall_s"]} for k, v in res["checks"].items()}),
-      "demo:", res.get("demo_unchanged_rc"), "->", res.get("demo_patched_rc"))
+      "demo:", res.get("demo_unchanged_rc"), "->", res.get("demo_patched_rc"), "tests_same:", res.get("tests_same_outcome"))
